@@ -50,7 +50,21 @@ def run_tunnel(hist, seed=0, route_back=False):
         async def main():
             await sim.tun.connect()
             n = 0
+            other = {"sim": None, "next": 0}
             for h in hist:
+                if h[0] == "other":
+                    # a second tunnel of the same process (another gateway, another XKNX) connects and / or receives frames of its own
+                    if other["sim"] is None or h[1] == "connect":
+                        if other["sim"] is not None:
+                            other["sim"].quiesce()
+                        other["sim"] = GatewaySim(loop, "udp", auto_reconnect=True, auto_reconnect_wait=1, route_back=route_back)
+                        await other["sim"].tun.connect()
+                        other["next"] = 0
+                    for _ in range(h[2]):
+                        other["sim"].server_tunnelling_request(other["sim"].chan or 0, other["next"], 200)
+                        other["next"] = (other["next"] + 1) % 256
+                        await asyncio.sleep(0.001)
+                    continue
                 if h[0] == "reconnect":
                     sim.server_disconnect()
                     for _ in range(200):
@@ -73,6 +87,8 @@ def run_tunnel(hist, seed=0, route_back=False):
                     "exp": getattr(getattr(sim.tun, "_sequence", None), "expected", -1),
                 })
             sim.quiesce()
+            if other["sim"] is not None:
+                other["sim"].quiesce()
 
         loop.run_until_complete(main())
     return trace
@@ -227,6 +243,9 @@ def histories(ck):
                 # note: the tunnel ignores the channel id of requests; the reference for foreign channels is in the spec
                 exp = (exp + 1) % 256
         hs.append(h)
+    # a second tunnel in the same process connects and receives its own frames in between: the two connections count separately
+    for k, j, m_ in itertools.product((0, 2, 3), (0, 1, 2), (1, 3)):
+        hs.append([("req", 0, c) for c in range(k)] + [("other", "connect", j)] + [("req", 0, k + c) for c in range(m_)] + [("other", "more", 2), ("req", 0, k + m_), ("req", 0, k + m_)])
     # reconnects after k delivered frames: the expectation restarts at 0 on every new connection
     for k, j in itertools.product((1, 2, 3, 5, 255, 257), (1, 3)):
         h = [("req", 0, c % 256) for c in range(k)] + [("reconnect",)] + [("req", 0, c) for c in range(j)]
@@ -272,6 +291,8 @@ def run(ck):
                 e["ch"] = e["acks"][0][0] if e["acks"] else e["ch"]
         traces.append(t)
         meta.append(("tunnel", src, h))
+        if any(x[0] == "other" for x in h):
+            continue                          # the second-tunnel histories are for the tunnel
         traces.append(run_dm(h, ck.seed))
         meta.append(("devmgmt", src, h))
         if i % 3 == 0 or any(x[0] == "reconnect" for x in h):      # ... and through the whole connection object (a new channel after every reconnect)
